@@ -14,28 +14,33 @@ Local Open Scope Z_scope.
 
 Definition on_obj_stack (e : expr) : bool := match ty_of e with TInt => false | _ => true end.
 
+Definition all_with (f : expr -> bool) : list expr -> bool :=
+  fix go (l : list expr) : bool := match l with [] => true | x :: l' => f x && go l' end.
+Definition opt_with (f : expr -> bool) (o : option expr) : bool := match o with None => true | Some x => f x end.
+
 Fixpoint no_logic (e : expr) : bool :=
-  let fix all (l : list expr) : bool := match l with [] => true | x :: l' => no_logic x && all l' end in
-  let opt (o : option expr) : bool := match o with None => true | Some x => no_logic x end in
   match e with
   | EConst _ _ | EIdent _ _ | EUnaryBad | EBad => true
   | EParen x | ENot x | ESelector _ _ x => no_logic x
   | EBinary op _ x y => match op with OLor | OLand => false | _ => no_logic x && no_logic y end
-  | ESlice _ x lo hi _ => no_logic x && opt lo && opt hi
-  | ECall _ _ recv args => opt recv && all args
+  | ESlice _ x lo hi _ => no_logic x && opt_with no_logic lo && opt_with no_logic hi
+  | ECall _ _ recv args => opt_with no_logic recv && all_with no_logic args
   end.
 
 Definition is_nil_ident (e : expr) : bool := ident_name e =? name_nil.
 
+(* argument number i is boxed (variadic tail starting at vi, 0 = no tail) *)
+Definition boxed (vi i : Z) : bool := negb (vi =? 0) && (vi <=? i).
+
+(* operands in evaluation order; [pend] = an earlier operand sits on the object stack *)
+Definition safe_seq_with (sf : expr -> bool) : list expr -> bool -> Z -> Z -> bool :=
+  fix seq (l : list expr) (pend : bool) (i vi : Z) : bool :=
+    match l with
+    | [] => true
+    | x :: l' => (if pend then no_logic x else sf x) && seq l' (pend || on_obj_stack x || boxed vi i) (i + 1) vi
+    end.
+
 Fixpoint safe (e : expr) : bool :=
-  (* operands in evaluation order; [pend] = an earlier operand sits on the object stack;
-     [i] = argument index, [vi] = index from which arguments are boxed (variadic tail), 0 = none *)
-  let fix seq (l : list expr) (pend : bool) (i vi : Z) : bool :=
-      match l with
-      | [] => true
-      | x :: l' => (if pend then no_logic x else safe x) &&
-                   seq l' (pend || on_obj_stack x || (negb (vi =? 0) && (vi <=? i))) (i + 1) vi
-      end in
   match e with
   | EConst _ _ | EIdent _ _ | EUnaryBad | EBad => true
   | EParen x | ENot x | ESelector _ _ x => safe x
@@ -47,15 +52,15 @@ Fixpoint safe (e : expr) : bool :=
           else safe x && (if on_obj_stack x then no_logic y else safe y)
       | _ => safe x && (if on_obj_stack x then no_logic y else safe y)
       end
-  | ESlice _ x lo hi _ =>
-      safe x && match lo with None => true | Some l => no_logic l end && match hi with None => true | Some h => no_logic h end
+  | ESlice _ x lo hi _ => safe x && opt_with no_logic lo && opt_with no_logic hi
   | ECall f _ recv args =>
       let vi := match f with FNative _ v => v | _ => 0 end in
       match recv with
-      | None => seq args false 0 vi
-      | Some r => safe r && seq args (on_obj_stack r) 0 vi
+      | None => safe_seq_with safe args false 0 vi
+      | Some r => safe r && safe_seq_with safe args (on_obj_stack r) 0 vi
       end
   end.
+Definition safe_seq := safe_seq_with safe.
 
 Definition safe_opt (o : option expr) : bool := match o with None => true | Some e => safe e end.
 
